@@ -87,6 +87,8 @@ def _tag(k, tag):
         if isinstance(val, Lst):
             val = Lst(val.elem, val.sorted, tag=tag + "[]")
         return Dct(k.key, val, tag=tag)
+    if isinstance(k, St):
+        return St(k.elem, tag=tag)
     return k
 
 
